@@ -34,3 +34,94 @@ Print Assumptions C15_bottom_reflection.
 Example C15_ex : reflect 10 1 (-3) == 2 /\ reflect 10 9 4 == 7 /\ reflect 10 5 2 == 7 /\
                  vertical 10 60 9 (Some (1#20)) (Some (1#60)) == 7.
 Proof. vm_compute. repeat split. Qed.
+
+(** TF — the property in BINARY64, exactly.  Model/VerticalFloat.v models the vertical displacement and the two
+    reflections over Coq's primitive floats in the code's order (z += w*dt; z[z<0] *= -1; z[z>h] = 2h - z), tied to the real
+    Tracker.update bit for bit by Corr/VertF.v.  Because rounding to nearest is monotone the invariant needs NO delta:
+    for a finite bottom depth 0 < h <= 2^1000, a start depth in [0, h] and a displacement with |w*dt| <= h the resulting
+    float lies in [0, h] EXACTLY (the surface reflection and 2*h are exact, the single rounding in 2h - z cannot cross h
+    or 0); with both processes off the depth keeps its value; the float result is within 4 u64 h + eta of the exact
+    reflection.  With TWO displacements (diffusion, then advection) the bound on each must leave room for the rounding of
+    the first sum: vstep2_counterexample exhibits |d1| + |d2| = h exactly with a result of -2^-51 < 0 in binary64 (the
+    real code returns the same), which is why the property's hypothesis is the STRICT |d| < h and why the two-step theorem
+    is stated for |di| <= h/4. *)
+From Coq Require Import ZArith Reals List.
+From Coq Require Floats.
+From Flocq Require Import Core BinarySingleNaN.
+From Flocq Require IEEE754.PrimFloat IEEE754.Binary IEEE754.Bits.
+From Ladim Require Import Model.TrilinearFloat Proofs.TrilinearFloatProofs Model.VerticalFloat Proofs.VerticalFloatProofs Proofs.VertFSound.
+Import Flocq.IEEE754.PrimFloat.
+Section TF.
+Local Open Scope R_scope.
+Theorem C15_reflect_f_bounds :
+  forall z1 h : pfloat,
+  fin h ->
+  0 < FR h <= bpow radix2 1000 ->
+  fin z1 -> - FR h <= FR z1 <= 2 * FR h -> fin (reflect_f z1 h) /\ 0 <= FR (reflect_f z1 h) <= FR h.
+Proof. exact reflect_f_bounds. Qed.
+Print Assumptions C15_reflect_f_bounds.
+
+Theorem C15_vstep_f_in_column :
+  forall z w dt h : pfloat,
+  fin h ->
+  0 < FR h <= bpow radix2 1000 ->
+  fin z ->
+  0 <= FR z <= FR h ->
+  fin w ->
+  fin dt -> Rabs (FR w * FR dt) <= FR h -> fin (vstep_f z w dt h) /\ 0 <= FR (vstep_f z w dt h) <= FR h.
+Proof. exact vstep_f_in_column. Qed.
+Print Assumptions C15_vstep_f_in_column.
+
+Theorem C15_vstep2_f_in_column_quarter :
+  forall z w1 w2 dt h : pfloat,
+  fin h ->
+  bpow radix2 (-1020) <= FR h <= bpow radix2 1000 ->
+  fin z ->
+  0 <= FR z <= FR h ->
+  fin w1 ->
+  fin w2 ->
+  fin dt ->
+  Rabs (FR w1 * FR dt) <= FR h / 4 ->
+  Rabs (FR w2 * FR dt) <= FR h / 4 -> fin (vstep2_f z w1 w2 dt h) /\ 0 <= FR (vstep2_f z w1 w2 dt h) <= FR h.
+Proof. exact vstep2_f_in_column_quarter. Qed.
+Print Assumptions C15_vstep2_f_in_column_quarter.
+
+Theorem C15_vstep_f_still_value :
+  forall z w dt h : pfloat,
+  fin h ->
+  fin z ->
+  0 <= FR z <= FR h ->
+  fin (PrimFloat.mul w dt) ->
+  FR (PrimFloat.mul w dt) = 0 -> fin (vstep_f z w dt h) /\ FR (vstep_f z w dt h) = FR z.
+Proof. exact vstep_f_still_value. Qed.
+Print Assumptions C15_vstep_f_still_value.
+
+Theorem C15_vstep_f_error :
+  forall z w dt h : pfloat,
+  fin h ->
+  0 < FR h <= bpow radix2 1000 ->
+  fin z ->
+  0 <= FR z <= FR h ->
+  fin w ->
+  fin dt ->
+  Rabs (FR w * FR dt) <= FR h ->
+  Rabs (FR (vstep_f z w dt h) - reflectR (FR z + FR w * FR dt) (FR h)) <= 4 * u64 * FR h + eta.
+Proof. exact vstep_f_error. Qed.
+Print Assumptions C15_vstep_f_error.
+
+(** the refutation for two displacements whose sizes add up to EXACTLY h (so not the property's strict |d| < h): with
+    h = z = 0x1.8000000000001p+0, d1 = 0x1.7fffffffffffep+0, d2 = 0x1.8p-51 and dt = 1 the binary64 sum d1 + d2 is h bit
+    for bit, both roundings of z + d1 + d2 go up, and the computed depth is -2^-51 < 0; the hypotheses of the theorems
+    above ([vstep2_ok]) are false for it.  (Stated as the type of the lemma: the statement contains hexadecimal float
+    literals, which this file — that does not import Coq's float notations, to keep the printed axiom names
+    qualified — cannot spell.) *)
+Theorem C15_vstep2_counterexample : ltac:(let t := type of vstep2_counterexample in exact t).
+Proof. exact vstep2_counterexample. Qed.
+Print Assumptions C15_vstep2_counterexample.
+
+Theorem C15_check_inv_sound :
+  forall c : list Z, VertF.check_side c = true -> VertF.check_bits c = true -> VertF.check_inv c = true.
+Proof. exact check_inv_sound. Qed.
+Print Assumptions C15_check_inv_sound.
+
+End TF.
